@@ -45,10 +45,10 @@ below. Reverting each `fix:` commit is an additional built-in mutant set (`tools
 `seeded/INDEX.fixes.md`): %d reverts, each reported by the owning check.
 
 State at the end: **%d of the %d are reported with exit 1 by at least one quick check, %d by the check of the property
-they were written against**; not reported: %s. %d of them were *not* reported (or reported only as exit 2) when first
+they were written against**; not reported: %s (those in ckormanyos/uintwide_t.h are all inside Knuth's division, the one part of the multi-limb arithmetic that is not decided, see 2.5b; M-C17-1 because its property, C17, is not applicable). %d of them were *not* reported (or reported only as exit 2) when first
 run; what was strengthened is in the last column. The miss rate fell from round to round (rounds 1-2: 15 of 35; round 8:
 5 of 7; round 9: 5 of 12, three of them duplicates of earlier changes found again for another property; round 10, whose
-agents were told to stay out of Knuth's division: 0 of 8; round 11: 2 of 6 missed and one reported only as exit 2, all three closed; round 12: 0 of 3). The strengthenings exposed genuine defects of the pinned tree (D18/D19,
+agents were told to stay out of Knuth's division: 0 of 8; round 11: 2 of 6 missed and one reported only as exit 2, all three closed; round 12: 0 of 3; round 13, six changes against the properties with the fewest changes so far: 5 reported at first run, the sixth, M-C10-6, is the fourth change inside Knuth's division - while it was being written C10 gained the bitwise operators `& | ^` and built-in operands for all limb values, which it does not touch; round 14, six more: 5 reported at first run - one of them, M-C16-8, is M-C16-1 proposed again - and M-C13-8 missed, closed by C13's new bound-passing rule E; refactor round E9 (2) exposed a false alarm of C13's store rule, corrected, see section 6). The strengthenings exposed genuine defects of the pinned tree (D18/D19,
 D20, D22, D23, D24) and two engine bugs of mine (section 6).
 
 | change | property | what was changed | what it needs to manifest | confirmed | reported by (violations, quick tier) | history |
